@@ -211,7 +211,8 @@ void free_memory_list::deallocate(void* ptr, std::size_t n) noexcept
     else
     {
         auto mem = detail::debug_fill_free(ptr, n, 0);
-        insert_impl(mem, n);
+        // give back whole nodes, as many as allocate(n) took
+        insert_impl(mem, (n + node_size_ - 1) / node_size_ * node_size_);
     }
 }
 
@@ -508,8 +509,9 @@ void ordered_free_memory_list::deallocate(void* ptr, std::size_t n) noexcept
         deallocate(ptr);
     else
     {
-        auto mem  = detail::debug_fill_free(ptr, n, 0);
-        auto prev = insert_impl(mem, n);
+        auto mem = detail::debug_fill_free(ptr, n, 0);
+        // give back whole nodes, as many as allocate(n) took
+        auto prev = insert_impl(mem, (n + node_size_ - 1) / node_size_ * node_size_);
 
         last_dealloc_      = static_cast<char*>(mem);
         last_dealloc_prev_ = prev;
